@@ -76,7 +76,19 @@ def shard_lists(desc):
     res = Result()
     cases, plan = [], []
     k = 0
-    for typ, L, lists in desc['work']:
+    for item in desc['work']:
+        if item[0] == 'enum':
+            # enumerate this shard's slice of the exhaustive space lazily (LEN=4 has 5.4e6 lists)
+            _, typ, L, maxlen, sidx, nsh = item
+            lists = []
+            cnt = 0
+            for n in range(0, maxlen + 1):
+                for t in itertools.product(LATTICE, repeat=n):
+                    if cnt % nsh == sidx:
+                        lists.append(list(t))
+                    cnt += 1
+        else:
+            typ, L, lists = item
         for i in range(0, len(lists), 200):
             c, marks = from_ranges_batch('%s-%d' % (desc['name'], k), typ, lists[i:i + 200])
             k += 1
@@ -237,11 +249,8 @@ def run(tier, seed):
             for L, maxlen in exh.items():
                 if frac < 1.0 and L == max(exh):
                     maxlen -= 1
-                lists = []
-                for n in range(0, maxlen + 1):
-                    lists.extend(list(t) for t in itertools.product(LATTICE, repeat=n))
                 for s in range(nsh):
-                    work[s].append(('%s%d' % (prefix, L), L, lists[s::nsh]))
+                    work[s].append(('enum', '%s%d' % (prefix, L), L, maxlen, s, nsh))
             for L in (10, 100):
                 lists = random_lists(rng, L, int(nrand * frac))
                 for s in range(nsh):
